@@ -74,15 +74,31 @@ func (w *ConfWatcher) run() {
 	var lastCalled time.Time
 	previousWatchedPath, _ := filepath.EvalSymlinks(w.absolutePath)
 
+	// a change that happens less than minInterval after a notification
+	// is notified as soon as the interval has elapsed, in order not to lose it.
+	var deferredNotification <-chan time.Time
+
+	notify := func(currentWatchedPath string) bool {
+		// wait some additional time to allow the writer to complete its job
+		time.Sleep(additionalWait)
+		previousWatchedPath = currentWatchedPath
+
+		lastCalled = time.Now()
+		deferredNotification = nil
+
+		select {
+		case w.signal <- struct{}{}:
+			return true
+		case <-w.terminate:
+			return false
+		}
+	}
+
 outer:
 	for {
 		select {
 		case event := <-w.inner.Events:
 			verifhook.Event("confwatcher.event", event.Name, event.Op.String())
-
-			if time.Since(lastCalled) < minInterval {
-				continue
-			}
 
 			currentWatchedPath, _ := filepath.EvalSymlinks(w.absolutePath)
 			eventPath, _ := filepath.Abs(event.Name)
@@ -95,17 +111,30 @@ outer:
 				(eventPath == currentWatchedPath &&
 					((event.Op&fsnotify.Write) == fsnotify.Write ||
 						(event.Op&fsnotify.Create) == fsnotify.Create)) {
-				// wait some additional time to allow the writer to complete its job
-				time.Sleep(additionalWait)
-				previousWatchedPath = currentWatchedPath
+				if elapsed := time.Since(lastCalled); elapsed < minInterval {
+					if deferredNotification == nil {
+						deferredNotification = time.After(minInterval - elapsed)
+					}
+					continue
+				}
 
-				lastCalled = time.Now()
-
-				select {
-				case w.signal <- struct{}{}:
-				case <-w.terminate:
+				if !notify(currentWatchedPath) {
 					break outer
 				}
+			}
+
+		case <-deferredNotification:
+			deferredNotification = nil
+
+			currentWatchedPath, _ := filepath.EvalSymlinks(w.absolutePath)
+			if currentWatchedPath == "" {
+				// watched file was removed; wait for write event to trigger reload
+				previousWatchedPath = ""
+				continue
+			}
+
+			if !notify(currentWatchedPath) {
+				break outer
 			}
 
 		case <-w.inner.Errors:
